@@ -140,6 +140,15 @@ class Interp:
 
     # ================================================================ errors
     def raise_py(self, clsname, *args):
+        # an IMPLICIT error (failed operation, bad index, wrong type ...) while executing code of a dependency STUB is a
+        # gap or bug of the stub, not behaviour of the program under contract -> undecided.  (Exceptions a stub raises
+        # deliberately with a `raise` statement model the dependency's behaviour and do not come through here.)
+        ms = getattr(self, "_mod_stack", None)
+        if ms and ms[-1] is not None and clsname not in ("StopIteration", "AssertionError") and getattr(self, "_attr_probe", 0) == 0:
+            from .stubs import STUB_SOURCES
+
+            if ms[-1] in STUB_SOURCES:
+                raise Unsupported(f"implicit {clsname} inside stub {ms[-1]}: {args!r}"[:300])
         cls = self.exc_classes[clsname]
         exc = Obj(cls, {"args": tuple(args)})
         raise PyRaise(exc)
@@ -1873,6 +1882,15 @@ class Interp:
             raise Unsupported("call of a type union")
         raise Unsupported(f"call of {type(f).__name__} {f!r}")
 
+    def _stub_sig(self, f, what):
+        """a call that does not fit the signature of a function defined in a dependency STUB says the stub is incomplete,
+        not that the program is wrong -> undecided"""
+        from .stubs import STUB_SOURCES
+
+        mod = f.module if isinstance(f.module, str) else getattr(f.module, "name", None)
+        if mod in STUB_SOURCES:
+            raise Unsupported(f"stub {mod}.{f.qualname} does not model this call ({what})")
+
     def bind_args(self, f, args, kwargs):
         node = f.node
         a = node.args
@@ -1880,6 +1898,7 @@ class Interp:
         local = {}
         args = list(args)
         if len(args) > len(params) and a.vararg is None:
+            self._stub_sig(f, f"{len(args)} positional arguments")
             self.raise_py("TypeError", f"{f.qualname}() takes {len(params)} positional arguments but {len(args)} were given")
         for p, v in zip(params, args):
             local[p] = v
@@ -1897,6 +1916,7 @@ class Interp:
                 if j >= 0:
                     local[p] = f.defaults[j]
                 else:
+                    self._stub_sig(f, f"missing argument {p}")
                     self.raise_py("TypeError", f"{f.qualname}() missing required argument '{p}'")
         for p in a.kwonlyargs:
             if p.arg in kw:
@@ -1911,6 +1931,7 @@ class Interp:
             for k in kw:
                 if k in local:
                     self.raise_py("TypeError", f"{f.qualname}() got multiple values for argument '{k}'")
+            self._stub_sig(f, f"keyword {next(iter(kw))}")
             self.raise_py("TypeError", f"{f.qualname}() got an unexpected keyword argument '{next(iter(kw))}'")
         return local
 
@@ -1919,6 +1940,8 @@ class Interp:
         if self.call_depth > self.max_call_depth:
             self.call_depth -= 1
             raise Unsupported("call depth exceeded (unbounded recursion?)")
+        self._mod_stack = getattr(self, "_mod_stack", [])
+        self._mod_stack.append(f.module if isinstance(f.module, str) else None)
         try:
             local = self.bind_args(f, args, kwargs)
             fr = Frame(f)
@@ -1941,6 +1964,7 @@ class Interp:
             return ret
         finally:
             self.call_depth -= 1
+            self._mod_stack.pop()
 
     # ---------------------------------------------------------------- classes
     def dataclass_fields(self, cls):
